@@ -10,7 +10,7 @@ ID = "C15"
 LEAN_TARGETS = ["BeyondVerif.Props.C15", "BeyondVerif.Witness.C15"]
 THEOREMS = [
     "BeyondVerif.C15.names_six_distinct",
-    "BeyondVerif.C15.access_name_index_partial",
+    "BeyondVerif.C15.access_name_index",
     "BeyondVerif.C15.access_alias_index",
     "BeyondVerif.C15.access_foreign_refused",
     "BeyondVerif.C15.access_slot_sound",
@@ -18,64 +18,75 @@ THEOREMS = [
     "BeyondVerif.C15.setForm_error_atomic",
     "BeyondVerif.C15.setFrame_unknown_atomic",
     "BeyondVerif.C15.setFrameBasic_error_atomic",
+    "BeyondVerif.C15.covSetFrame_error_atomic",
     "BeyondVerif.C15.setFrame_error_cases",
+    "BeyondVerif.C15.copy_receiver_unchanged",
+    "BeyondVerif.C15.copyForm_receiver_unchanged",
+    "BeyondVerif.C15.copyFrame_receiver_unchanged",
     "BeyondVerif.C15.asOrbit_receiver_unchanged",
     "BeyondVerif.C15.asSV_receiver_unchanged",
-    "BeyondVerif.C15.as_orbit_as_statevector_id",
-    "BeyondVerif.C15.asOrbit_same_references",
-    "BeyondVerif.C15.copy_receiver_unchanged",
+    "BeyondVerif.C15.pickle_receiver_unchanged",
     "BeyondVerif.C15.copy_separate_depth1",
-    "BeyondVerif.C15.copyForm_receiver_unchanged",
+    "BeyondVerif.C15.copy_separate",
+    "BeyondVerif.C15.copy_shares_only_maneuver_objects",
+    "BeyondVerif.C15.example_heap_wf",
+    "BeyondVerif.C15.asOrbit_separate",
+    "BeyondVerif.C15.asSV_separate",
+    "BeyondVerif.C15.pickle_separate",
+    "BeyondVerif.C15.as_orbit_as_statevector_id",
     "BeyondVerif.Heap.copyRef_ok",
-    "BeyondVerif.C15W.copy_shares_maneuver_objects_and_nested_containers",
-    "BeyondVerif.C15W.as_orbit_shares_cov",
-    "BeyondVerif.C15W.cylindrical_theta_refused",
-    "BeyondVerif.C15W.pickle_gives_unusable_object",
-    "BeyondVerif.C15W.pickle_then_copy_raises",
+    "BeyondVerif.Heap.copyRef_sep",
+    "BeyondVerif.Heap.deepRef_ok",
+    "BeyondVerif.C15W.copy_shares_maneuver_objects",
+    "BeyondVerif.C15W.as_orbit_cov_separate",
+    "BeyondVerif.C15W.pickle_gives_working_object",
 ]
-LEVEL_TEXT = ("Lean theorems over an object-graph (heap) model of StateVector/Orbit/Cov: for every heap and every receiver, copy(), copy(form=..), as_orbit, "
-              "as_statevector write no pre-existing cell (receiver unchanged, also when the conversion fails); after copy() the object, its buffer, its _data and "
-              "every first-level container/covariance/propagator are new cells (only maneuver objects survive) - proved for every copy depth by induction; "
-              "every failing form change leaves the heap identical, a failing frame transformation rewrites only the coordinate buffer with a value denoting the "
-              "same physical state; StateVector->Orbit->StateVector gives back the same values and the same _data entries; name/alias/index resolution decided "
-              "over the tables regenerated from beyond.orbits.forms on every run. Kernel-checked counter-witnesses for the clauses the code falsifies. The model "
-              "agrees exactly (object-identity partition, labels, bit-identical buffers) with the real classes on random operation sequences.")
-LEVEL_NOTE = ("copy(frame=..) receiver-unchanged with a following covariance, the unreachability of a covariance failure after a successful state-vector frame change, "
-              "and the pickle round trip as an isomorphism are open obligations (correspondence + oracle only); the full-depth separation clause, pickle and the "
-              "cylindrical names are false of the code (16 known-finding families); heap model hand-written, tied by the correspondence run; Lean kernel + propext/Classical.choice/Quot.sound")
+LEVEL_TEXT = ("Lean theorems over an object-graph (heap) model of StateVector/Orbit/Cov: for every heap and receiver, copy(), copy(form=..), copy(frame=..), as_orbit, "
+              "as_statevector and a pickle round trip write no pre-existing cell (receiver unchanged, also when the conversion fails); in every well-formed heap a cell "
+              "reachable both from a copy and from its original is a maneuver object and nothing else, at any depth (copy_shares_only_maneuver_objects; the invariant "
+              "'every address stored in a cell the copy created is new or a maneuver object' is proved through the whole copy, for every copy depth, by induction); an "
+              "unpickled object shares nothing at all with the original; as_orbit / as_statevector create only new cells (plus the propagator handed in); every failing "
+              "form change and every failing covariance frame change leaves the heap identical, a failing frame transformation rewrites only the coordinate buffer with a "
+              "value denoting the same physical state; StateVector->Orbit->StateVector gives back the coordinates, form, frame and every immutable _data entry; "
+              "name/alias/index resolution decided over the tables regenerated from beyond.orbits.forms on every run. The model agrees exactly (object-identity "
+              "partition incl. cloned Frame objects, labels, error kinds, bit-identical buffers) with the real classes on random operation sequences.")
+LEVEL_NOTE = ("shared maneuver objects are an open finding (kept on purpose by the library) and the one exception in the separation theorems; that the content of copied "
+              "containers equals the original's, and the pickle round trip as an isomorphism, are compared exactly by the correspondence but not proved; a covariance failure "
+              "after a successful state-vector frame change is not proved unreachable; heap model hand-written, tied by the correspondence run; "
+              "Lean kernel + propext/Classical.choice/Quot.sound")
 TECHNIQUE = "Lean 4 proof over an object-graph (heap) model + kernel decide on regenerated name/alias tables; exact model/implementation correspondence"
 TRUSTED = [
-    "harness/props/C15.py extract: Form.param_names, Form.alt, forms._cache, _cache_param_names, the frame registry and the property names of the classes, read from live objects (cross-checked against the Form(...) literals in forms.py) -> Generated/HeapTables.lean",
+    "harness/props/C15.py extract: Form.param_names, Form.alt, forms._cache, _cache_param_names, the frame registry and the property names of the classes, read from live objects (cross-checked against the Form(...) literals in forms.py) -> Generated/FormTables.lean",
     "correspondence: real StateVector/Orbit/Cov objects vs the compiled Lean model on identical operation sequences; after every operation the whole object graph reachable from all variables is compared: "
-    "partition of mutable objects by id(), kinds, keys, labels, error kind, and every coordinate buffer bit for bit against the pure evaluation (Form.__call__, Frame.transform on fresh objects) of the model's symbolic value",
-    "CPython object identity (id / is), pickle memo semantics, numpy base/owndata semantics",
+    "partition of mutable objects by id(), identity of cloned Frame objects, kinds, keys, labels, error kind, and every coordinate buffer bit for bit against the pure evaluation (Form.__call__, Frame.transform on fresh objects) of the model's symbolic value",
+    "CPython object identity (id / is), pickle / copy.deepcopy memo semantics, numpy buffer semantics",
 ]
 ASSUMPTIONS = [
     "the heap model Model/Heap.lean is hand-written; it is tied to statevector.py / orbit.py / cov.py by the exact correspondence run only",
+    "the separation theorems assume a well-formed heap (WfM: no dangling address; every `maneuvers` entry is a list of maneuver objects); shown satisfiable (example_heap_wf), true of every state the harness builds, not proved preserved by the operations",
     "coordinate values are symbolic in the model (initial vector + sequence of conversions/assignments); that a form conversion does not move the physical state (phys erases it) is property C01, not proved here",
     "a Cov's own ndarray buffer and _data dict are kept inside its cell (Cov.__new__ creates both afresh); the correspondence asserts on every dump that no two objects share them",
     "dict key order is not modelled (both dumps sort keys); 'cov: None' and an empty maneuver list created by the getters on first read are treated as absent",
-    "Date, Form and Frame objects are treated as immutable values identified by name",
+    "Date and Form objects are treated as immutable values identified by name; Frame objects by name and identity (pickle / deepcopy clone them, the setters compare them with `is`-semantics)",
+    "copy.deepcopy of a metadata container holding a StateVector / Cov is modelled like a pickle of it (not generated by the harness)",
 ]
 NOT_COVERED = [
-    "the full-depth clause 'a copy shares no mutable data' is false of the code (maneuver objects, nested containers; as_orbit/as_statevector share everything mutable): known findings, Witness/C15.lean",
-    "pickling preserves a working object: false of the code (self.base is None, Cov loses _data): known findings, Witness/C15.lean",
-    "cylindrical theta/theta_dot by name: false of the code: known finding",
+    "maneuver objects stay shared between a copy and its original (open findings C15-*-man-object, kept on purpose by the library): the clause 'changing maneuvers of one never shows in the other' holds for the maneuver list, not for the objects in it",
     "numpy views (sv[:], sv.view()) share the buffer with their parent by numpy's own semantics and are outside the model; setting the form of such a view rewrites the parent's values but not its form label (observed, not filed: a view is not a copy)",
+    "after a pickle round trip the Frame objects are clones, so `p.frame = <same name>` runs a (numerically identity) transformation through cartesian instead of doing nothing: modelled and compared, not judged",
     "Cov frame conversions to/from the Hill frame beyond the error kind; numerical content of covariance rotations (C14)",
     "Orbit.propagate / Infos caches (C08, C01)",
 ]
 OPEN = [
-    "copyFrame_receiver_unchanged: proved for copy() and copy(form=..) for all heaps; for copy(frame=..) the state-vector part writes only new cells (same argument), but the following covariance and its private state "
-    "need the invariant 'every address stored in a new sv/cov cell is new' through copyItems/copyRef - not proved; covered by the correspondence (receiver dumps compared after every op) and the oracle (receiver-changed-*)",
-    "setFrame_error_cases third case (covariance part fails after the state vector was changed): not proved unreachable from constructor-built states; no occurrence in correspondence or oracle runs",
-    "pickle_id: only the failure of the round trip is witnessed; 'the unpickled graph is isomorphic to the original up to the owned/ok flags' is compared exactly by the correspondence but not proved for all heaps",
-    "copy_separate_depth1 is relative to getSV succeeding on the new object (form/frame entries survive the copy): shown by example, not as a general lemma",
+    "content equality of copies: that a copied / unpickled container holds the same values as the original (an isomorphism of object graphs) is compared exactly by the correspondence, proved only for immutable entries (as_orbit_as_statevector_id) and values (copy_separate_depth1)",
+    "setFrame_error_cases third case (covariance part fails after the state vector was changed; the covariance is then untouched, covSetFrame_error_atomic): not proved unreachable from constructor-built states; no occurrence in correspondence or oracle runs",
+    "WfM is not proved to be preserved by the operations (it is a hypothesis of copy_separate / asOrbit_separate / asSV_separate)",
+    "copy(form=..) / copy(frame=..): receiver-unchanged is proved; that the setters keep the full-depth separation invariant on the new object is not (they write only the new buffer, dict and covariance cell)",
 ]
 RULE = ("correspondence: (a) exhaustive name resolution: every form x every reserved name, alias and two free keys; (b) random sequences of 1-2 constructions (form, frame incl. Hill, "
         "Orbit or StateVector, with/without metadata containers, maneuvers, covariance in own/local/other frame) followed by 1-6 operations drawn from copy, copy(form), copy(frame), as_orbit, as_statevector, "
         "form=, frame= (incl. unknown names, Hill, aliases), setattr/setitem by name/alias/foreign name/free key, index assignment, cov.frame=, maneuvers.append, cov=, pickle round trip; "
-        "a case is non-trivial when it has >= 2 operations; distinct = distinct request line. oracle: for every converting method x every in-place mutation x both directions, deep snapshot of the other object; "
+        "a case is non-trivial when it has >= 2 operations; distinct = distinct request line; cases whose buffers hold non-finite numbers are skipped and counted. oracle: for every converting method x every in-place mutation x both directions, deep snapshot of the other object; "
         "failing setters; name/alias/index on every form; pickle and StateVector<->Orbit round trips")
 
 FRAMES = ["EME2000", "MOD", "TOD", "TEME", "PEF", "ITRF"]
@@ -125,7 +136,26 @@ def make_state(rng, spec):
     return sv
 
 
+def finite_state(sv):
+    import numpy as np
+    cov = sv._data.get("cov")
+    return bool(np.all(np.isfinite(np.asarray(sv))) and (cov is None or np.all(np.isfinite(np.asarray(cov)))))
+
+
 def rand_spec(rng, **force):
+    """a random object description whose state is finite (elements of a state that is hyperbolic relative to a rotating
+    frame are NaN in the tle / mean forms; every later operation on such an object is garbage in, garbage out)"""
+    for _ in range(50):
+        spec = _rand_spec(rng, **force)
+        try:
+            if finite_state(make_state(rng, spec)):
+                return spec
+        except Exception:
+            pass
+    return _rand_spec(rng, **dict(force, form="cartesian", frame="EME2000"))
+
+
+def _rand_spec(rng, **force):
     spec = {"kep": rand_coord(rng), "form": rng.choice(FORMS), "frame": rng.choice(FRAMES), "orbit": rng.random() < 0.4,
             "cov": rng.random() < 0.5, "covframe": rng.choice([None, None, "TNW", "QSW"]), "mans": rng.choice([0, 0, 1, 2]),
             "meta": rng.random() < 0.6, "dt": rng.randrange(0, 86400)}
@@ -693,7 +723,18 @@ class Real:
         from beyond.frames.frames import Frame
         from beyond.dates import Date
         from beyond.propagators.base import Propagator
+        from beyond.frames import frames as _frames
         seen, vals, problems, keep = {}, [], [], []
+        clones = {}
+
+        def frame_str(x):
+            """registry objects by name; clones (pickle / deepcopy make new Frame objects, compared by identity) numbered by first visit"""
+            hill = type(x).__name__ == "HillFrame"
+            name = "Hill" if hill else x.name
+            if _frames.dynamic.get("Hill" if hill else x.name) is x:
+                return name
+            keep.append(x)
+            return f"{name}'{clones.setdefault(id(x), len(clones) + 1)}"
 
         def ident(key, obj):
             keep.append(obj)
@@ -716,7 +757,7 @@ class Real:
             if isinstance(x, Form):
                 return f"f:{x.name}"
             if isinstance(x, Frame):
-                return f"F:{'Hill' if type(x).__name__ == 'HillFrame' else x.name}"
+                return f"F:{frame_str(x)}"
             if isinstance(x, StateVector):
                 i, back = ident(id(x), x)
                 if back:
@@ -733,7 +774,7 @@ class Real:
                 else:
                     sb = f"B{bi}=<$>"
                     vals.append(np.asarray(x).tobytes())
-                return f"S{i}({'O' if isinstance(x, Orbit) else 'V'},{int(owned)},{sb},{ref(x._data)})"
+                return f"S{i}({'O' if isinstance(x, Orbit) else 'V'},{sb},{ref(x._data)})"
             if isinstance(x, Cov):
                 i, back = ident(id(x), x)
                 if back:
@@ -743,6 +784,8 @@ class Real:
                     vals.append(np.asarray(x).tobytes())
                     return f"C{i}(!,<$>)"
                 for part in (x.base, dd):
+                    if part is None:      # an unpickled array owns its memory
+                        continue
                     if id(part) in seen or ("covpart", id(part)) in seen:
                         problems.append("a covariance shares its buffer / dict with another object")
                     seen[("covpart", id(part))] = -1
@@ -750,8 +793,9 @@ class Real:
                 vals.append(np.asarray(x).tobytes())
                 fr = dd["frame"]
                 of = x.__dict__.get("_orb_frame")
-                frs = fr if isinstance(fr, str) else ref(fr)[2:]
-                return f"C{i}(<$>,{frs},{ref(of)[2:]},{ref(dd['orb'])})"
+                frs = fr if isinstance(fr, str) else frame_str(fr)
+                ofs = frame_str(of)
+                return f"C{i}(<$>,{frs},{ofs},{ref(dd['orb'])})"
             if isinstance(x, Man):
                 i, back = ident(id(x), x)
                 return back or f"M{i}={x.comment[1:]}"
